@@ -4,6 +4,7 @@ import (
 	"bytes"
 	"fmt"
 	"net/http"
+	"strconv"
 	"strings"
 
 	"verif/harness/model"
@@ -43,6 +44,41 @@ func C16(o *world.Obs) *Result {
 				break
 			}
 		}
+	}
+	// no lost update on an entry: once the reply of a LATER origin call has been written under a
+	// key, nothing writes an EARLIER reply back over it (a validation that was in flight while
+	// the entry was replaced must not bring the replaced representation back)
+	lastTok := map[string]*world.Call{}
+	seenBefore := map[string]bool{}
+	for _, op := range o.Ops {
+		if op.Op != "set" || op.Err != "" {
+			continue
+		}
+		i := bytes.Index(op.Val, []byte("\r\nX-Tok: "))
+		if i < 0 {
+			continue
+		}
+		rest := op.Val[i+9:]
+		j := bytes.Index(rest, []byte("\r\n"))
+		if j < 0 {
+			continue
+		}
+		n, err := strconv.Atoi(string(rest[:j]))
+		cur := o.CallBySerial(n)
+		if err != nil || cur == nil {
+			continue
+		}
+		// (two full replies fetched at about the same time may be stored in either order; what
+		// is excluded is A, B, A: the entry held reply A, was replaced by the later reply B, and
+		// A is written back)
+		seenKey := op.Key + "#" + strconv.Itoa(cur.Serial)
+		wasThere := seenBefore[seenKey]
+		seenBefore[seenKey] = true
+		if prev := lastTok[op.Key]; prev != nil && prev.Serial != cur.Serial && wasThere && cur.Completed && cur.EndSeq < prev.StartSeq {
+			r.Fail("C16", "entry-regressed", op.Ex, "key %q held reply s%d (origin call %d..%d) and is overwritten with the older reply s%d (origin call ended at %d, before s%d was even requested): a replaced representation is back in the store", op.Key, prev.Serial, prev.StartSeq, prev.EndSeq, cur.Serial, cur.EndSeq, prev.Serial)
+			break
+		}
+		lastTok[op.Key] = cur
 	}
 	bgSeen := false
 	for _, c := range o.Calls {
